@@ -286,6 +286,14 @@ func ruleR12d(h *H) {
 	// callers map the sentinel to the statuses
 	for _, s := range h.P.AllCalls(ir.InPkg("server/kv"), ir.Callee{Pkg: "server/kv", Recv: "", Name: fn.Name()}) {
 		caller := s.Fn
+		// an extracted helper that merely hands the error on: the mapping is its caller's job
+		for i := 0; i < 3 && !returnsResponse(caller); i++ {
+			site := ir.SingleCallSite(caller)
+			if site == nil {
+				break
+			}
+			caller = site.Parent()
+		}
 		h.Fn(ir.FuncName(caller))
 		mapped := false
 		keyNotFound := false
@@ -319,6 +327,11 @@ func ruleR12d(h *H) {
 			h.Verdict(keyNotFound, rule, "absent key on delete mapped to KEY_NOT_FOUND in "+ir.FuncName(caller), h.pos(s.Call), "KEY_NOT_FOUND status returned", "deleting an absent key does not report KEY_NOT_FOUND")
 		}
 	}
+}
+
+// returnsResponse: the function's first result is one of the proto response messages.
+func returnsResponse(f *ssa.Function) bool {
+	return returnsType(f, "PutResponse") || returnsType(f, "DeleteResponse") || returnsType(f, "DeleteRangeResponse")
 }
 
 func returnsType(f *ssa.Function, name string) bool {
@@ -439,8 +452,13 @@ func ruleR12fInto(h *H, rule string) {
 	_ = fn
 	f := call.Call.StaticCallee()
 	h.Fn(ir.FuncName(f))
+	restore := bindRegion(f)
+	defer restore()
 	scans := h.P.CallsIn(f, batchRangeScan)
-	tombs := h.P.CallsIn(f, batchDelRange)
+	var tombs []ssa.CallInstruction
+	for _, hf := range helperFuncs(f) {
+		tombs = append(tombs, h.P.CallsIn(hf, batchDelRange)...)
+	}
 	if len(scans) != 1 || len(tombs) != 1 {
 		h.Anchor(rule, fmt.Sprintf("one WriteBatch.RangeScan and one WriteBatch.DeleteRange in %s (found %d/%d)", ir.FuncName(f), len(scans), len(tombs)))
 		return
@@ -503,10 +521,11 @@ func ruleR12fInto(h *H, rule string) {
 				continue
 			}
 			// leaving the loop from the body: fine only if that path returns without reaching the tombstone / deletes
-			if r, _ := ir.Reach(ir.Search{FromBlock: s}, func(in ssa.Instruction) bool {
-				c := ir.CallOf(in)
-				return c != nil && h.P.MatchesAny(c, batchDelRange, batchDelete)
-			}); r {
+			deletes := map[ssa.Instruction]bool{}
+			for _, d := range h.callsOrHelpers(f, batchDelRange, batchDelete) {
+				deletes[d] = true
+			}
+			if r, _ := ir.Reach(ir.Search{FromBlock: s}, func(in ssa.Instruction) bool { return deletes[in] }); r {
 				early = fmt.Sprintf("the loop can be left from its body (block b%d) and still go on to delete the range: keys after that point are deleted without their callback", b.Index)
 			}
 		}
